@@ -718,6 +718,111 @@ example : (match sAddAll cfg0 {} [evB, evA, evCreate, evA] with
         (match sResolve st (some { time := some 15 }) with | .ok (_, m) => m.version == 0 | _ => false)
     | _ => false) = true := by decide
 
+/-! ### deepening round: regenerated decision table, Puts, Get error handling, statistics codec, constants -/
+
+/-- interpreter of the regenerated decision table of `latestNonDeactivatedRequested`: the steps are tried in source order;
+    "nil" tests the pointer, any other key tests whether that field of the resolve metadata is set; `none` = the table
+    would dereference a nil pointer or names a field the model does not know -/
+def lndField (r : ResolveMeta) : String → Option Bool
+  | "ResolveTime" => some r.time.isSome
+  | "Hash" => some r.hash.isSome
+  | "SourceTransaction" => some r.sourceTx.isSome
+  | _ => none
+
+def lndTable (final : ResolveMeta → Bool) : List (String × Bool) → Option ResolveMeta → Option Bool
+  | [], none => none
+  | [], some r => some (final r)
+  | (k, v) :: rest, rm =>
+    if k = "nil" then (match rm with | none => some v | some _ => lndTable final rest rm)
+    else match rm with
+      | none => none
+      | some r =>
+        match lndField r k with
+        | none => none
+        | some true => some v
+        | some false => lndTable final rest rm
+
+/-- **the hand-written `latestNonDeactivatedRequested` IS the regenerated decision table** (check order, tested fields,
+    answers and the final `!AllowDeactivated`), for every resolve metadata -/
+theorem fact_latest_non_deactivated_table :
+    Facts.C10.lndFinal = "!resolveMetadata.AllowDeactivated" ∧
+    ∀ rm, lndTable (fun r => !r.allowDeactivated) Facts.C10.lndSteps rm = some (latestNonDeactivatedRequested rm) := by
+  refine ⟨by decide, ?_⟩
+  intro rm
+  cases rm with
+  | none => rfl
+  | some r =>
+    obtain ⟨ad, h, t, s⟩ := r
+    cases h <;> cases t <;> cases s <;> rfl
+
+/-- the statements of `matches` in source order (deactivated, nil, hash, time: Updated then Created, source transaction) -/
+theorem fact_matches_steps : Facts.C10.matchesSteps =
+    ["metadata.Deactivated && (resolveMetadata == nil || !resolveMetadata.AllowDeactivated) => { return false }",
+     "resolveMetadata == nil => { return true }",
+     "resolveMetadata.Hash != nil && !metadata.Hash.Equals(*resolveMetadata.Hash) => { return false }",
+     "resolveMetadata.ResolveTime != nil => { resolveTime := *resolveMetadata.ResolveTime if metadata.Updated.After(resolveTime) { return false } if metadata.Created.After(resolveTime) { return false } }",
+     "resolveMetadata.SourceTransaction != nil => { for _, keyTx := range metadata.SourceTransactions { if keyTx.Equals(*resolveMetadata.SourceTransaction) { return true } } return false }",
+     "return true"] := by rfl
+
+/-- every shelf Put of the write path: `writeDocument` = txRefV2[ref] ← payload hash, documentsV2[payload hash] ← bytes;
+    `applyEvent` = metadataV2[DID+version] and, ONLY when the version is conflicted, documentsV2[metadata.Hash] ← merged bytes;
+    latestV2 / eventsV2 / conflictedV2 / the two statsV2 counters (DocShelves.lean `writeDocument`, `writeMergedStep`, `statsStep`) -/
+theorem fact_shelf_puts : Facts.C10.shelfPuts =
+    ["writeDocument: transactionIndexShelf[stoabs.HashKey(transaction.Ref)] = transaction.PayloadHash.Slice()",
+     "writeDocument: documentShelf[stoabs.HashKey(transaction.PayloadHash)] = documentBytes",
+     "applyEvent: metadataShelf[stoabs.BytesKey(fmt.Sprintf(\"%s%d\", nextDocument.ID.String(), nextMetadata.Version))] = metadataBytes",
+     "applyEvent: if nextMetadata.isConflicted(): documentShelf[stoabs.HashKey(nextMetadata.Hash)] = docBytes",
+     "writeLatest: latestShelf[stoabs.BytesKey(id.String())] = []byte(mdID)",
+     "writeEventList: eventShelf[stoabs.BytesKey(id.String())] = nelBytes",
+     "applyFrom: if metadata.isConflicted(): conflictedShelf[stoabs.BytesKey(document.ID.String())] = []byte{0}",
+     "applyFrom: statsShelf[stoabs.BytesKey(conflictedCountKey)] = cBytes",
+     "incrementDocumentCount: statsShelf[stoabs.BytesKey(documentCountKey)] = cBytes"] := by rfl
+
+/-- every shelf Get of the read and write paths is followed by a check that returns any error other than
+    `ErrKeyNotFound` (ReadPath.lean: a failing Get ends the call with the storage error) -/
+theorem fact_get_errors_returned : Facts.C10.getGuards =
+    ["Resolve: latestMetaRef, err := latestReader.Get(stoabs.BytesKey(id.String())) ; if err != nil && !errors.Is(err, stoabs.ErrKeyNotFound) { return err }",
+     "loadConflictedDocuments: latestMetaRef, err := latestReader.Get(key) ; if err != nil && !errors.Is(err, stoabs.ErrKeyNotFound) { return err }",
+     "ConflictedCount: cBytes, err := reader.Get(stoabs.BytesKey(conflictedCountKey)) ; if err != nil && !errors.Is(err, stoabs.ErrKeyNotFound) { return err }",
+     "DocumentCount: cBytes, err := reader.Get(stoabs.BytesKey(documentCountKey)) ; if err != nil && !errors.Is(err, stoabs.ErrKeyNotFound) { return err }",
+     "HistorySinceVersion: documentBytes, err := documentReader.Get(stoabs.NewHashKey(payloadHash)) ; if err != nil { if errors.Is(err, stoabs.ErrKeyNotFound) { return storage.ErrNotFound } return err }",
+     "readDocument: documentBytes, err := documentReader.Get(stoabs.NewHashKey(documentHash)) ; if err != nil && !errors.Is(err, stoabs.ErrKeyNotFound) { return document, err }",
+     "readMetadata: metadataBytes, err := metadataReader.Get(stoabs.BytesKey(ref)) ; if err != nil && !errors.Is(err, stoabs.ErrKeyNotFound) { return metadata, err }",
+     "readEventList: eventListBytes, err := eventReader.Get(stoabs.BytesKey(id.String())) ; if err != nil && !errors.Is(err, stoabs.ErrKeyNotFound) { return el, err }",
+     "applyFrom: cBytes, err := statsWriter.Get(stoabs.BytesKey(conflictedCountKey)) ; if err != nil && !errors.Is(err, stoabs.ErrKeyNotFound) { return err }",
+     "applyFrom: b, err := conflictedWriter.Get(stoabs.BytesKey(id.String())) ; if err != nil && !errors.Is(err, stoabs.ErrKeyNotFound) { return err }",
+     "incrementDocumentCount: cBytes, err := statsWriter.Get(stoabs.BytesKey(documentCountKey)) ; if err != nil && !errors.Is(err, stoabs.ErrKeyNotFound) { return err }",
+     "applyDocument: payloadHashBytes, err := txRefReader.Get(stoabs.HashKey(st)) ; if err != nil && !errors.Is(err, stoabs.ErrKeyNotFound) { return did.Document{}, documentMetadata{}, fmt.Errorf(\"error on reading transactionIndexShelf: %w\", err) }"] := by rfl
+
+/-- the counters are 4-byte big-endian on every read and every write (DocShelves.lean `encU32` / `decU32`) -/
+theorem fact_stats_codec : Facts.C10.statsCodec =
+    ["applyFrom: binary.BigEndian.Uint32",
+     "applyFrom: make([]byte, 4)",
+     "applyFrom: binary.BigEndian.PutUint32",
+     "incrementDocumentCount: binary.BigEndian.Uint32",
+     "incrementDocumentCount: make([]byte, 4)",
+     "incrementDocumentCount: binary.BigEndian.PutUint32",
+     "ConflictedCount: binary.BigEndian.Uint32",
+     "DocumentCount: binary.BigEndian.Uint32"] := by rfl
+
+theorem fact_store_constants : Facts.C10.storeConsts =
+    ["didStoreName=\"didstore\"",
+     "latestShelf=\"latestV2\"",
+     "metadataShelf=\"metadataV2\"",
+     "transactionIndexShelf=\"txRefV2\"",
+     "documentShelf=\"documentsV2\"",
+     "eventShelf=\"eventsV2\"",
+     "conflictedShelf=\"conflictedV2\"",
+     "statsShelf=\"statsV2\"",
+     "conflictedCountKey=\"conflictedCount\"",
+     "documentCountKey=\"documentCount\""] := by rfl
+
+/-- `HistorySinceVersion` refuses a negative version before any read; `readDocumentFromEvent` takes the in-memory
+    document of the new event and reads every other one from documentsV2 by payload hash -/
+theorem fact_history_guard_and_event_document :
+    Facts.C10.historyFirstStatement = "if version < 0 { return nil, errors.New(\"negative version\") }" ∧
+    Facts.C10.readDocumentFromEventBody = "{ if e.document != nil { return *e.document, nil } return readDocument(tx, e.PayloadHash) }" := ⟨rfl, rfl⟩
+
 /-! ### the content-addressed shelves txRefV2 / documentsV2 and the statistics shelf (NutsModel/C10/DocShelves.lean) -/
 
 theorem render_nonempty (d : Doc) : d.render.isEmpty = false := by
